@@ -583,6 +583,15 @@ func (b *builder) node(s *sp, st int, top bool) interface{} {
 	return b.dict(s, st, top)
 }
 
+func hasEmptyName(s *sp) bool {
+	for _, e := range s.ents {
+		if e.key == "" {
+			return true
+		}
+	}
+	return false
+}
+
 func sameLeafType(l []*sp) (reflect.Type, bool) {
 	var t reflect.Type
 	for _, e := range l {
@@ -707,6 +716,16 @@ func (b *builder) dict(s *sp, st int, top bool) interface{} {
 		}
 		out = m
 	case stStruct:
+		if hasEmptyName(s) {
+			// the empty name can not be written as a struct tag (an empty tag
+			// stands for the default name)
+			b.parts["map[string]"] = true
+			m := make(map[string]interface{}, len(s.ents))
+			for _, e := range s.ents {
+				m[e.key] = b.node(e.val, child, false)
+			}
+			return m
+		}
 		return b.structOf(s, child, st == stMixed && b.r.Intn(3) == 0 || st == stStruct && !top && b.r.Intn(3) == 0)
 	case stTyped:
 		vals := make([]*sp, 0, len(s.ents))
@@ -1618,6 +1637,9 @@ func (k *kase) structDuplicate(cons string) string {
 	b.noInline = true
 	var others []fieldSpec
 	for _, e := range top.ents {
+		if e.key == "" {
+			continue // not expressible as a struct tag
+		}
 		others = append(others, fieldSpec{tag: e.key, val: b.node(e.val, stStruct, false), concrete: r.Intn(2) == 0})
 	}
 	conc := func() bool { return r.Intn(2) == 0 }
@@ -1688,6 +1710,23 @@ func (k *kase) structDuplicate(cons string) string {
 
 // ---------------------------------------------------------------- case
 
+// emptyNames counts dictionary entries named "" below the top level.
+func emptyNames(n *model.Node, depth int) int {
+	c := 0
+	if n.IsSub() {
+		for key, ch := range n.D {
+			if key == "" && depth > 0 {
+				c++
+			}
+			c += emptyNames(ch, depth+1)
+		}
+		for _, ch := range n.A {
+			c += emptyNames(ch, depth+1)
+		}
+	}
+	return c
+}
+
 func levels(n *model.Node) int {
 	if !n.IsSub() {
 		return 0
@@ -1733,6 +1772,11 @@ func (check) Run(seed int64, tier string, idx int, verbose bool) harness.Result 
 	if r.Intn(8) == 0 {
 		o.Width = 6
 	}
+	if r.Intn(5) == 0 {
+		// the empty string is a name like any other: its dotted spellings begin
+		// or end with the separator or hold two separators in a row
+		o.Keys = []string{"a", "b", "c", ""}
+	}
 	t := gen.TopDict(r, o, depth)
 	// three quarters of the cases insist on a tree with nested containers
 	for try := 0; try < 4 && idx%4 != 0 && levels(t) < 2; try++ {
@@ -1745,6 +1789,9 @@ func (check) Run(seed int64, tier string, idx int, verbose bool) harness.Result 
 		res.Key(t.String())
 	}
 	res.SetAdd("tree_levels", strconv.Itoa(levels(t)))
+	if n := emptyNames(t, 0); n > 0 {
+		res.Ev("empty_names_below_top_level", int64(n))
+	}
 
 	k.representations()
 	views := k.tagViews()
